@@ -1,7 +1,7 @@
 (* C03 — The detector error model is exactly the circuit's noise pushed onto detectors. *)
 From Coq Require Import List Bool String ZArith NArith QArith.
 Import ListNotations.
-Require Adj XorConv AdjGen TableAdj.
+Require Adj XorConv AdjGen TableAdj GenProofs_RevMeas.
 Require Import Stab Act Spec SpecProofs Gen_GateTable Gen_RevTrack GenProofs_RevTrack.
 
 (* (1) Tie G: every unitary undo_* routine of the reverse tracker (translated from sparse_rev_frame_tracker.cc), applied per
@@ -21,6 +21,12 @@ Theorem C03_adjoint_all_gates :
   forall n (c : list TableAdj.tgop), Forall (TableAdj.tok n) c -> forall (D : AdjGen.det) (F : AdjGen.st),
   AdjGen.parity_at D 0 (AdjGen.frun (map TableAdj.compile c) F) = AdjGen.pair_upto n (AdjGen.back (map TableAdj.compile c) D) F.
 Proof. exact TableAdj.adjoint_table_circuits. Qed.
+(* the reverse tracker's measurement / reset undo routines (undo_MX .. undo_MRZ, undo_RX .. undo_RZ, regenerated from source) are
+   the backward steps of that theorem for the gate's documented basis, and test the anticommuting component for gauges *)
+Theorem C03_revtrack_measure_reset_routines_match : GenProofs_RevMeas.revmeas_all_ok = true.
+Proof. exact GenProofs_RevMeas.revmeas_routines_match_adjgen. Qed.
+Theorem C03_analyzer_measure_reset_routines_match : GenProofs_RevMeas.ea_revmeas_all_ok = true.
+Proof. exact GenProofs_RevMeas.analyzer_measure_reset_routines_match_adjgen. Qed.
 Print Assumptions C03_adjoint_all_gates. Print Assumptions C03_revtrack_routines_match_inverse_table.
 Print Assumptions C03_revtrack_routines_correct_2q.
 
